@@ -1,9 +1,11 @@
 import KcpVerif.Model.Kcp
+import KcpVerif.Lemmas.KcpLiveFlush
+import KcpVerif.Lemmas.KcpLiveOps
 /-!
 C18 — no retransmission on a clean path; RTO stays within its bounds.
 -/
 namespace KcpVerif.Props
-open KcpVerif KcpVerif.Gen KcpVerif.Kcp
+open KcpVerif KcpVerif.Gen KcpVerif.Kcp KcpVerif.Live
 
 theorem C18_clamp_bounds (minrto rto : U32) (hmin : minrto ≤ u32 IKCP_RTO_MAX) :
     minrto ≤ clampRto minrto rto ∧ clampRto minrto rto ≤ u32 IKCP_RTO_MAX := by
@@ -24,5 +26,234 @@ theorem C18_rto_bounds (k : Kcp) (rtt : U32) (hmin : k.rx_minrto ≤ u32 IKCP_RT
   unfold updateAck
   simp only [h]
   exact ⟨(C18_clamp_bounds _ _ hmin).1, (C18_clamp_bounds _ _ hmin).2, trivial⟩
+
+/-! ### `segment_rto_lower`: the per-segment timer written by every (re)transmission
+
+`cause`, `segAfter`, `emit` (Lemmas/KcpXmit.lean): decision cascade of phase 5, the segment it leaves
+in `snd_buf`, the write into the output buffer; `xmitOne_eq` proves `xmitOne` equal to them. -/
+
+/-- For an un-acked segment, whatever the state: `xmitOne` appends exactly one segment `s'` to
+`done`; if no branch fires, `s' = s` and nothing is written; otherwise the segment is written,
+`xmit` is incremented, the timer is re-armed at `resendts = now + s'.rto`, and
+* initial / fast / early branch: `s'.rto = rx_rto` (never below the connection RTO);
+* timeout branch: `s'.rto = s.rto + rx_rto` (`nodelay = 0`) or `s.rto + rx_rto / 2`. -/
+theorem C18_segment_rto_lower (now resent : U32) (wnd : BitVec 16) (una : U32) (newSegs : Nat) (st : XmitSt) (s : Seg)
+    (ha : s.acked = false) :
+    ∃ s', (xmitOne now resent wnd una newSegs st s).done = st.done ++ [s'] ∧
+      (cause now resent newSegs s = .none → s' = s ∧ (xmitOne now resent wnd una newSegs st s).f = st.f) ∧
+      (cause now resent newSegs s ≠ .none →
+        (xmitOne now resent wnd una newSegs st s).f = emit st.f s' ∧
+        s'.xmit = s.xmit + 1 ∧ s'.resendts = now + s'.rto) ∧
+      (cause now resent newSegs s = .initial ∨ cause now resent newSegs s = .fast ∨ cause now resent newSegs s = .early →
+        s'.rto = st.f.k.rx_rto) ∧
+      (cause now resent newSegs s = .timeout →
+        s'.rto = (if st.f.k.nodelay = 0 then s.rto + st.f.k.rx_rto else s.rto + st.f.k.rx_rto / 2)) := by
+  refine ⟨segAfter now resent wnd una newSegs st.f.k.rx_rto st.f.k.nodelay s, xmitOne_done _ _ _ _ _ _ _, ?_, ?_, ?_, ?_⟩
+  · intro hc
+    exact ⟨segAfter_none _ _ _ _ _ _ _ _ (Or.inr hc), by rw [xmitOne_f, if_pos (Or.inr hc)]⟩
+  · intro hc
+    refine ⟨by rw [xmitOne_f, if_neg (fun h => h.elim (by simp [ha]) hc)], ?_, ?_⟩
+    · rw [segAfter_sent _ _ _ _ _ _ _ _ ha hc]
+      cases hcc : cause now resent newSegs s <;> first | rfl | exact absurd hcc hc
+    · rw [segAfter_sent _ _ _ _ _ _ _ _ ha hc]
+      exact retimed_resendts _ _ _ _ _ hc
+  · intro hc
+    have hne : cause now resent newSegs s ≠ .none := by
+      rcases hc with h | h | h <;> rw [h] <;> exact fun c => by cases c
+    rw [segAfter_sent _ _ _ _ _ _ _ _ ha hne]
+    rcases hc with h | h | h <;> rw [h] <;> rfl
+  · intro hc
+    have hne : cause now resent newSegs s ≠ .none := by rw [hc]; exact fun c => by cases c
+    rw [segAfter_sent _ _ _ _ _ _ _ _ ha hne, hc]; rfl
+
+/-- the timeout branch is monotone as long as the sum does not wrap: `s'.rto ≥ s.rto` and, for
+`nodelay = 0`, `s'.rto ≥ rx_rto` -/
+theorem C18_timeout_rto_monotone (srto rx : U32) (h : srto.toNat + rx.toNat < 2 ^ 32) :
+    srto ≤ srto + rx ∧ rx ≤ srto + rx ∧ srto ≤ srto + rx / 2 := by
+  have hd : (rx / 2).toNat = rx.toNat / 2 := by
+    show (rx / BitVec.ofNat 32 2).toNat = _
+    simp [BitVec.toNat_udiv]
+  generalize rx / 2 = d at hd ⊢
+  refine ⟨?_, ?_, ?_⟩ <;> bv_omega
+
+/-! ### `resend_causes` -/
+
+/-- In a full flush a segment that was sent before (`xmit > 0`) is transmitted again (it leaves the
+flush with `xmit` incremented — equivalently `cause ≠ none`) only if its timer is due, or
+`fastack ≥ resent` with a real (non-sentinel) count, or `fastack > 0` (non-sentinel) and nothing
+new was admitted by this flush.  `resent = resentOf k` is `fastresend`, or `0xFFFFFFFF` (never
+reached by a non-sentinel count) when fast resend is off. -/
+theorem C18_resend_causes (k : Kcp) (now : U32) (s : Seg) (hs : s ∈ (flAd k now).buf) (ha : s.acked = false)
+    (hx : s.xmit ≠ 0)
+    (hsent : (segAfter now (resentOf k) (wndUnused k) k.rcv_nxt (flAd k now).count k.rx_rto k.nodelay s).xmit ≠ s.xmit) :
+    (flush k true now).k.snd_buf =
+      (flAd k now).buf.map (segAfter now (resentOf k) (wndUnused k) k.rcv_nxt (flAd k now).count k.rx_rto k.nodelay) ∧
+    (itimediff now s.resendts ≥ 0 ∨
+     (s.fastack ≥ resentOf k ∧ s.fastack ≠ 0xFFFFFFFF#32) ∨
+     (s.fastack > 0 ∧ s.fastack ≠ 0xFFFFFFFF#32 ∧ (flAd k now).count = 0)) := by
+  obtain ⟨pw, tp, h4⟩ := flF4_frame k now
+  have hX := flX_full k now
+  have hdone := hX.done
+  have hres : resentOf (flF4 k now).k = resentOf k := by rw [h4]; rfl
+  have hrto : (flF4 k now).k.rx_rto = k.rx_rto := by rw [h4]
+  have hnd : (flF4 k now).k.nodelay = k.nodelay := by rw [h4]
+  have hbuf : (flF4 k now).k.snd_buf = (flAd k now).buf := by rw [h4]
+  simp only [hres, hrto, hnd, hbuf, List.nil_append] at hdone
+  obtain ⟨_, _, st, ss, cw, inc, hk⟩ := flush_frame k true now
+  refine ⟨by rw [hk]; exact hdone, ?_⟩
+  have hc : cause now (resentOf k) (flAd k now).count s ≠ .none := by
+    intro hc; exact hsent (by rw [segAfter_none _ _ _ _ _ _ _ _ (Or.inr hc)])
+  rcases cause_why now (resentOf k) (flAd k now).count s hx hc with h | h | h
+  · exact Or.inl h.2
+  · exact Or.inr (Or.inl h.2)
+  · exact Or.inr (Or.inr h.2)
+
+/-- non-vacuity: a segment sent once whose timer (50) is due at 100 is retransmitted by the timeout
+branch: `xmit = 2`, `rto = 200 + rx_rto = 400`, `resendts = 100 + 400` -/
+example : (flush { Kcp.new 1 with snd_buf := [{ sn := 0, xmit := 1, resendts := 50, rto := 200 }], snd_nxt := 1 } true 100
+    ).k.snd_buf.map (fun s => (s.xmit, s.rto, s.resendts)) = [(2, 400, 500)] := by decide
+
+/-- with fast resend off (`fastresend ≤ 0`) the threshold is the sentinel itself, so the fast
+branch can never fire -/
+theorem C18_no_fast_when_off (k : Kcp) (hoff : k.fastresend.sle 0 = true) (s : Seg) :
+    ¬ (s.fastack ≥ resentOf k ∧ s.fastack ≠ 0xFFFFFFFF#32) := by
+  unfold resentOf
+  rw [if_pos hoff]
+  intro h
+  exact h.2 (by bv_omega)
+
+/-! ### `fastack_increment_cause` -/
+
+/-- `parse_fastack`: position by position the send buffer is unchanged except that `fastack` of a
+segment may grow by one — and only when the ACK's `sn` is strictly later than the segment's
+(`itimediff sn s.sn > 0`), the segment does not carry the sentinel, and it was sent no later than
+the acknowledged one (`itimediff s.ts ts ≤ 0`).  The whole function acts only for `sn` inside
+`[snd_una, snd_nxt)`. -/
+theorem C18_fastack_increment_cause (sn ts fastresend : U32) (l : List Seg) (k : Kcp) :
+    ((fastLoop sn ts fastresend l).buf.length = l.length ∧
+      ∀ p ∈ l.zip (fastLoop sn ts fastresend l).buf, p.2 = p.1 ∨
+        (p.2 = { p.1 with fastack := p.1.fastack + 1 } ∧ itimediff sn p.1.sn > 0 ∧ p.1.fastack ≠ 0xFFFFFFFF#32 ∧
+          itimediff p.1.ts ts ≤ 0)) ∧
+    ((parseFastack k sn ts).1.snd_buf = k.snd_buf ∨
+      (itimediff sn k.snd_una ≥ 0 ∧ itimediff sn k.snd_nxt < 0 ∧
+        (parseFastack k sn ts).1.snd_buf = (fastLoop sn ts k.fastresend k.snd_buf).buf)) := by
+  refine ⟨?_, ?_⟩
+  · induction l with
+    | nil => unfold fastLoop; exact ⟨rfl, fun p hp => by simp at hp⟩
+    | cons s rest ih =>
+      unfold fastLoop
+      split
+      · refine ⟨rfl, fun p hp => ?_⟩
+        exact Or.inl (mem_zip_self _ p hp).symm
+      · rename_i h1
+        split
+        · rename_i h2
+          refine ⟨by simp only [List.length_cons, ih.1], fun p hp => ?_⟩
+          simp only [List.zip_cons_cons, List.mem_cons] at hp
+          rcases hp with rfl | hp
+          · exact Or.inr ⟨rfl, itimediff_pos_of_ne _ _ h1 h2.1, h2.2.2, h2.2.1⟩
+          · exact ih.2 p hp
+        · refine ⟨by simp only [List.length_cons, ih.1], fun p hp => ?_⟩
+          simp only [List.zip_cons_cons, List.mem_cons] at hp
+          rcases hp with rfl | hp
+          · exact Or.inl rfl
+          · exact ih.2 p hp
+  · unfold parseFastack
+    split
+    · exact Or.inl rfl
+    · rename_i h
+      refine Or.inr ⟨?_, ?_, rfl⟩
+      · exact Int.not_lt.mp (fun c => h (Or.inl c))
+      · exact Int.not_le.mp (fun c => h (Or.inr c))
+
+/-- non-vacuity: an ACK for sn 7 bumps the earlier segment 5 (sent no later) and not segment 7 -/
+example : (fastLoop 7 100 2 [{ sn := 5, ts := 90 }, { sn := 7, ts := 95 }]).buf =
+    [{ sn := 5, ts := 90, fastack := 1 }, { sn := 7, ts := 95 }] := by decide
+
+/-! ### `reachable_rto_bounds`
+
+`Op`, `step`, `run`, `RtoInv`, `rtoOk`, `runOk` are in Lemmas/KcpLiveOps.lean. -/
+
+/-- every operation with arbitrary arguments keeps `rx_minrto ≤ rx_rto ≤ IKCP_RTO_MAX`; the only
+hypothesis concerns `NoDelay`: it must not raise `rx_minrto` above the current `rx_rto`
+(`rtoOk`; `True` for every other operation) -/
+theorem C18_step_rto_bounds (k : Kcp) (op : Op) (hinv : RtoInv k) (hok : rtoOk k op) : RtoInv (step k op) := by
+  cases op with
+  | send b => exact RtoInv.of_same (send_rto k b) hinv
+  | recv n => exact RtoInv.of_same (recv_rto k n) hinv
+  | flush full now => exact RtoInv.of_same (flush_rto k full now) hinv
+  | update now => exact RtoInv.of_same (update_rto k now) hinv
+  | setMtu m => exact RtoInv.of_same (setMtu_rto k m) hinv
+  | wndSize s r => exact RtoInv.of_same (wndSize_rto k s r) hinv
+  | noDelay nd iv rs nc =>
+    unfold step RtoInv
+    rw [(noDelay_rto k nd iv rs nc).1, (noDelay_rto k nd iv rs nc).2]
+    refine ⟨?_, hinv.2⟩
+    unfold rtoOk at hok
+    split
+    · rename_i hnd
+      rcases hok with h | h
+      · omega
+      · exact h
+    · exact hinv.1
+  | input data regular ackNoDelay now =>
+    have hst : RtoInv (inSt k data regular).k := RtoInv.of_same (inSt_rto k data regular) hinv
+    have h2 : RtoInv (inK2 k data regular now) := by
+      unfold inK2
+      refine RtoInv.of_same (cwndOnAck_rto _ _) ?_
+      split
+      · have hb := C18_rto_bounds (inSt k data regular).k (now - (inSt k data regular).latest)
+          (BitVec.le_trans hst.1 hst.2)
+        unfold RtoInv
+        rw [hb.2.2]
+        exact ⟨hb.1, hb.2.1⟩
+      · exact hst
+    show RtoInv (input k data regular ackNoDelay now).k
+    rw [input_eq]
+    split
+    · exact hinv
+    · split
+      · exact hst
+      · split
+        · exact hst
+        · split
+          · exact RtoInv.of_same (flush_rto _ _ _) h2
+          · split
+            · exact RtoInv.of_same (flush_rto _ _ _) h2
+            · split
+              · exact RtoInv.of_same (flush_rto _ _ _) h2
+              · exact h2
+
+/-- `rx_minrto ≤ rx_rto ≤ IKCP_RTO_MAX` in every state reachable from `NewKCP` (100 ≤ 200 ≤ 60000) by
+any sequence of operations with arbitrary arguments in which no `NoDelay` raises `rx_minrto` above
+the current `rx_rto` (`runOk`).  Every RTT sample, however forged, keeps the bounds. -/
+theorem C18_reachable_rto_bounds (conv : U32) (ops : List Op) (h : runOk (Kcp.new conv) ops) :
+    RtoInv (run (Kcp.new conv) ops) := by
+  have h0 : RtoInv (Kcp.new conv) := by
+    unfold RtoInv Kcp.new; simp only [u32, IKCP_RTO_MIN, IKCP_RTO_DEF, IKCP_RTO_MAX]; decide
+  generalize Kcp.new conv = k at h h0
+  induction ops generalizing k with
+  | nil => exact h0
+  | cons op rest ih =>
+    rw [run_cons]
+    exact ih (step k op) h.2 (C18_step_rto_bounds k op h0 h.1)
+
+/-- before the first RTT sample (`rx_rto` still `IKCP_RTO_DEF`) every `NoDelay` call is allowed -/
+theorem C18_noDelay_before_sample_ok (k : Kcp) (hdef : k.rx_rto = u32 IKCP_RTO_DEF) (nd iv rs nc : Int) :
+    rtoOk k (.noDelay nd iv rs nc) := by
+  unfold rtoOk
+  rw [hdef]
+  right
+  split <;> (simp only [u32, IKCP_RTO_NDL, IKCP_RTO_MIN, IKCP_RTO_DEF]; decide)
+
+/-- non-vacuity: a run with NoDelay before traffic, a forged ACK datagram and flushes satisfies the
+hypothesis (and the hypothesis is decidable) -/
+example : runOk (Kcp.new 7)
+    [.noDelay 1 10 2 1, .send [1, 2, 3], .flush true 100,
+     .input [7,0,0,0, 82,0, 32,0, 0,0,0,0, 0,0,0,0, 1,0,0,0, 0,0,0,0] true false 5000, .update 5100] := by
+  decide
+
+/-- the hypothesis is needed: raising `rx_minrto` to 100 after the RTO dropped to 30 breaks the bound -/
+example : ¬ RtoInv (noDelay { Kcp.new 7 with rx_rto := 30, rx_minrto := 30 } 0 (-1) (-1) (-1)) := by decide
 
 end KcpVerif.Props
